@@ -995,7 +995,7 @@ Qed.
 (* ------------------------------------------------------------------ served_ok is needed (audit F1)
    A descriptor that carries fields which are not the manifest's (e.g. the annotations /
    artifactType of the index entry pointing to it, as a reloaded OCI layout served them
-   before fix 53cd0be) is judged on those fields: the filters do not fetch then. *)
+   before fix fda86b1) is judged on those fields: the filters do not fetch then. *)
 Definition embedded_source : source :=
   mkSource (fun x => match x with
                      | 0 => [mkDesc 1 (b "application/vnd.fake.type")
